@@ -218,12 +218,12 @@ def search_metadata_gate(F):
         return [Result("inconclusive", "needs_metadata not found in the debug info of build_search_response")]
     SET = stmt(r"^%s = const true;$" % nm, name="needs_metadata = true")
     LOOP = call(r"= <IntoIter<(kyrodb_engine::)?SearchResult> as Iterator>::next\(", name="first candidate fetched")
-    T = Arm(r"^call Option::<&TenantContext>::is_some$", {"otherwise"}, name="tenant.is_some()")
+    T = Arm(r"^call Option::<&TenantContext>::is_some$", {"otherwise"}, name="tenant.is_some() [first test: the needs_metadata computation]", nth=0)
     if not T.switches(fc.fn):
         r = fc.reachable(LOOP)
         return [Result("violated" if r.verdict == "holds" else "inconclusive", "build_search_response no longer derives needs_metadata from tenant.is_some(): with a tenant and no namespace / filter the ownership "
                        "re-check of search candidates is skipped", queries=r.queries, seconds=r.seconds, sample={"fn": fc.name, "kind": "FOLLOWS", "A": T.name, "B": SET.name})]
-    return [fc.follows(T, SET, exit="any", exit_ev=LOOP), fc.never(stmt(r"^%s = const false;$" % nm, name="needs_metadata = false"), frm=T)]
+    return [fc.follows(T, SET, exit="any", exit_ev=LOOP)]
 
 
 def cache_scope(F):
